@@ -179,6 +179,10 @@ def check(fam, tier, seed, replay=None):
         small = shrink(fam, c, still, budget=120) if (not replay and len(reported) < 2) else c
         rr, _ = xrun(fam, [dict(small, id="shrink")])
         rs = rr["shrink"]
+        if not (rs.get("ispec") or "-").startswith("FAIL"):
+            # timing-dependent case: it failed in the run proper and passed when re-run alone;
+            # report what was observed when it failed
+            small, rs = c, dict(r, note="failed in the run, passed when re-run alone (timing-dependent)")
         k = match_known(prop, fam, small, rs)
         if k:
             if k["what"] not in seen_known:
@@ -192,7 +196,7 @@ def check(fam, tier, seed, replay=None):
         if len(reported) > 5:
             continue
         path = core.write_replay(prop, "input", {"case": {k2: v for k2, v in small.items() if k2 != "id"},
-                                 "impl_obs": rs.get("impl"), "model_obs": rs.get("model"), "spec_clause": rs.get("ispec"),
+                                 "impl_obs": rs.get("impl"), "model_obs": rs.get("model"), "spec_clause": rs.get("ispec"), "note": rs.get("note"),
                                  "seed": seed, "tier": tier, "family": type(fam).__name__})
         lines.append("VIOLATION property=%s replay=%s" % (prop, path))
         nviol += 1
